@@ -144,5 +144,41 @@ def run(ctx):
     Obligation(ctx, 'R12.3').run(fa, 'Arc.intersect(Bezier): parameters are only discarded when strictly outside [0,1]', th_ab, judge_ab,
                                  allowed_raises=('AssertionError',), opts=arc_opts(mdl))
 
+    # ---------------------------------------------------------------- R12.5 redundancy = closer than tol (absolute)
+    ctx.rule('R12.5', 'Path.intersect drops a crossing only when an EARLIER crossing is known to lie within the absolute tolerance tol of it; '
+                      'all others are kept (no relative tolerance: distinct crossings far from the origin must survive)', 1)
+    fpi = mdl.func('path.Path.intersect')
+    TOL = Rat.sym('tol')
+
+    def th_dd(it):
+        s1 = [it.construct('path.Line', Rat.csym('A%d' % k), Rat.csym('B%d' % k)) for k in range(2)]
+        s2 = [it.construct('path.Line', Rat.csym('C0'), Rat.csym('D0'))]
+        p1, p2 = it.construct('path.Path', *s1), it.construct('path.Path', *s2)
+        it.call_hooks['path.Line.intersect'] = lambda it2, a, k: [(Rat.sym('t1_%d' % [i for i, x in enumerate(s1) if x is a[0]][0]), Rat.sym('t2'))]
+        it.call_hooks['path.Path.t2T'] = lambda it2, a, k: Rat.sym('T')
+        pts = {}
+
+        def lp(it2, a, k):
+            i = [i for i, x in enumerate(s1) if x is a[0]][0]
+            return Rat.csym('X%d' % i)
+        it.call_hooks['path.Line.point'] = lp
+        r = it.call_method(p1, 'intersect', p2, tol=TOL)
+        dist = apply_fn('abs', Rat.csym('X0') - Rat.csym('X1'))
+        return [x[0][1] for x in r], s1, path_sign(it, dist - TOL)
+
+    def judge_dd(v):
+        kept, s1, sg = v
+        idx = [[i for i, x in enumerate(s1) if x is g][0] for g in kept]
+        if idx == [0, 1]:
+            ok = sg <= frozenset('0+')
+            return ok, '' if ok else 'both crossings are kept although they are known to be closer than tol'
+        if idx == [0]:
+            ok = sg == frozenset('-')
+            return ok, '' if ok else ('the second crossing is dropped on a path that does not know |x0 - x1| < tol (known sign of |x0-x1|-tol: %s): '
+                                      'the redundancy test is not the absolute distance test' % sorted(sg))
+        return False, 'crossings kept: %s (the earlier one of a close pair must survive)' % idx
+    Obligation(ctx, 'R12.5').run(fpi, 'joint-redundancy filter on two crossings', th_dd, judge_dd, allowed_raises=('AssertionError',),
+                                 opts={'presign': [(TOL, '+')]})
+
     # ---------------------------------------------------------------- R12.4
     c08.cubic_minmax(ctx, 'R12.4')
